@@ -299,7 +299,9 @@ func (d Decimal) PowWithMode(o Decimal, mode RoundingMode) Decimal {
 	}
 
 	if !oNeg && oExp >= exponentBias && dSig == (uint128{1, 0}) {
-		if oSig[1] != 0 || oSig[0] > maxUnbiasedExponent {
+		// the exponent of the result is the product of both; the largest
+		// factor that can stay in range is 6176 (for 10**-1)
+		if oSig[1] != 0 || oSig[0] > exponentBias+maxDigits {
 			if dExp == exponentBias {
 				return one(neg)
 			}
